@@ -243,7 +243,10 @@ def oracle_case(script_lines, impl_lines):
                     # clamped non-empty rectangle; nothing to check (C15 uses it that way)
                     pass
             continue
-        o = parse_obs(line)
+        try:
+            o = parse_obs(line)
+        except (ValueError, IndexError):
+            return "unparsable observation (garbage iteration) after '%s': %s" % (op, line[:120])
         e = check_partition(o)
         if e:
             return "%s after '%s'" % (e, op)
@@ -333,7 +336,10 @@ def check(ctx):
         hist[kind] = hist.get(kind, 0) + 1
         for l in il:
             if " n=" in l:
-                n = int(l.split(" n=")[1].split()[0])
+                try:
+                    n = int(l.split(" n=")[1].split()[0])
+                except ValueError:
+                    n = 0
                 if n >= 2:
                     distinct.add(l.split(" ", 1)[1] if not l.startswith(("and", "sub", "pop")) else l)
         if "degenerate" not in c[0] and (idx < oracle_budget or d is not None):
